@@ -1,14 +1,4 @@
-//@ item src/loop_logic.rs / type IdleCallback props=C13
-//@ enditem
-//@ item src/loop_logic.rs / struct LoopInner props=C15,C06
-//@ pre
-#[verifier::reject_recursive_types(Data)]
-//@ enditem
-//@ item src/loop_logic.rs / struct LoopHandle props=C15,C06
-//@ pre
-#[verifier::reject_recursive_types(Data)]
-//@ enditem
-
+//@ include loop_structs_body
 //@ region loop_slice_specs props=C15,C06,C01,C16,C07,C09,C14,C02
 /// ASSUMPTION carrier surfaced from the dispatcher layer (DESIGN 1.3): wrapped sources accept the calls.
 pub closed spec fn all_accept<Data>() -> bool {
